@@ -3,6 +3,9 @@ package main
 import (
 	"bytes"
 	"fmt"
+	"io/ioutil"
+	"os"
+	"path/filepath"
 	"runtime"
 	"sort"
 	"sync"
@@ -115,6 +118,26 @@ func concOps() []concOp {
 		}
 		return "ssa-type:" + encBytes(b.Bytes())
 	})
+	for _, f := range []string{"srt", "vtt", "ssa", "stl", "ttml"} {
+		f := f
+		ops = append(ops, func(seed uint64) string { // the file API: every call writes its own file
+			s := genSubs(newRng(seed, "subs"), f)
+			for len(s.Items) < 200 {
+				s.Items = append(s.Items, s.Items[len(s.Items)%3])
+			}
+			dir, err := ioutil.TempDir("", "verif-conc-")
+			if err != nil {
+				return f + ":file:tmp"
+			}
+			defer os.RemoveAll(dir)
+			p := filepath.Join(dir, fmt.Sprintf("out%d.%s", seed, f))
+			if err := s.Write(p); err != nil {
+				return f + ":file:" + errClass(err)
+			}
+			b, _ := ioutil.ReadFile(p)
+			return f + ":file:" + fmt.Sprint(len(b)) + ":" + fnv(string(b))
+		})
+	}
 	ops = append(ops, extraConcOps...)
 	return ops
 }
@@ -190,7 +213,25 @@ func init() {
 	// det.write: the same list written 50 times in this process, with all writer orders: identical bytes, list untouched
 	streams["det.write"] = stream{exec: func(a []string) string {
 		s, _ := parseCanon(a)
-		before := canonSubs(s)
+		// nil definitions are legal map values (every writer skips them); the canonical form cannot carry them, so they
+		// are added here, and the snapshot counts the map entries
+		if len(a)%2 == 0 {
+			if s.Styles != nil && len(s.Styles) > 0 {
+				s.Styles["~nil"] = nil
+			}
+			if s.Regions != nil {
+				s.Regions["~nil"] = nil
+			}
+		}
+		snap := func() string {
+			return canonSubs(s) + fmt.Sprintf(" #styles=%d #regions=%d", len(s.Styles), len(s.Regions))
+		}
+		before := snap()
+		// another caller's list, written in between: nothing of it may show in this list's output
+		other := genSubs(newRng(7, "other"), "ssa")
+		other.Metadata = &astisub.Metadata{Title: "other", SSAScriptType: "v4.00+", STLTimecodeStartOfProgramme: time.Hour}
+		other.Styles["o"] = &astisub.Style{ID: "o", InlineStyle: &astisub.StyleAttributes{SSABold: func() *bool { b := true; return &b }(), WebVTTStyles: []string{"::cue(o) { color: red }"}}}
+		other.Regions["o"] = &astisub.Region{ID: "o", InlineStyle: &astisub.StyleAttributes{WebVTTLines: 3}}
 		formats := []string{"srt", "vtt", "ssa", "stl", "ttml"}
 		first := map[string]string{}
 		write := func(f string) string {
@@ -219,12 +260,16 @@ func init() {
 					fw := &faultWriter{cap: 10 + rep}
 					writeRaw(f, s, fw)
 				}
+				if rep%5 == 2 {
+					var ob bytes.Buffer
+					writeRaw(f, other, &ob)
+				}
 				out := write(f)
 				if prev, ok := first[f]; ok && prev != out {
 					return "diff bytes " + f
 				}
 				first[f] = out
-				if canonSubs(s) != before {
+				if snap() != before {
 					return "diff input-modified-by " + f
 				}
 			}
